@@ -14,7 +14,7 @@
    stored key, neighbour, proper prefix, one-byte extension, every separator and its
    neighbours, the empty key and reversed ranges. *)
 From Coq Require Import NArith List Lia.
-From Mtbl Require Import model.Bytes model.Order spec.Parse model.Reader proofs.OrderProofs proofs.BlockProofs proofs.LookupProofs proofs.ReaderProofs.
+From Mtbl Require Import model.Bytes model.Order spec.Parse model.Reader proofs.OrderProofs proofs.BlockProofs proofs.LookupProofs proofs.ReaderProofs proofs.LookupRel.
 (* source ties: the statements of the C functions the model follows (gen/Ties.v is regenerated from /repo on every run) *)
 From Mtbl Require props.Ties_C02.
 Local Open Scope N_scope.
@@ -82,3 +82,34 @@ Proof.
   - destruct (bcmp key k); congruence.
 Qed.
 Print Assumptions T02_bounds.
+
+(* Relations between the lookups (proofs/LookupRel.v), all over table_ok and for every key:
+   "exactly the matching entries" has these consequences a caller relies on -
+   an exact-match lookup delivers at most one entry; get k delivers what get_range k k
+   delivers; the empty prefix delivers the whole table; whatever any lookup delivers is
+   strictly increasing (no key twice). *)
+Theorem T02_get_at_most_one : forall decompress r ib iridx nb B Rr,
+  table_ok decompress r ib iridx nb B Rr ->
+  forall k0 k1,
+  (length (filter (fun e : bytes * bytes => lookup_pred KGet k0 k1 (fst e)) (table_entries_of nb B)) <= 1)%nat.
+Proof. exact table_get_at_most_one. Qed.
+Print Assumptions T02_get_at_most_one.
+
+Theorem T02_get_is_range_k_k : forall (nb : nat) (B : nat -> ablock) k,
+  filter (fun e : bytes * bytes => lookup_pred KGet k k (fst e)) (table_entries_of nb B) =
+  filter (fun e : bytes * bytes => lookup_pred KRange k k (fst e)) (table_entries_of nb B).
+Proof. exact table_get_is_range. Qed.
+Print Assumptions T02_get_is_range_k_k.
+
+Theorem T02_empty_prefix_is_everything : forall (nb : nat) (B : nat -> ablock) k1,
+  filter (fun e : bytes * bytes => lookup_pred KPrefix nil k1 (fst e)) (table_entries_of nb B) = table_entries_of nb B.
+Proof. exact table_prefix_nil_is_all. Qed.
+Print Assumptions T02_empty_prefix_is_everything.
+
+Theorem T02_results_strictly_increasing : forall decompress r ib iridx nb B Rr,
+  table_ok decompress r ib iridx nb B Rr ->
+  forall kind k0 k1, exists l,
+  filter (fun e : bytes * bytes => lookup_pred kind k0 k1 (fst e)) (table_entries_of nb B) = map ent l /\
+  Sorted.StronglySorted klt l.
+Proof. exact table_result_sorted. Qed.
+Print Assumptions T02_results_strictly_increasing.
